@@ -2,7 +2,9 @@
 //   --out FILE                     trace (ndjson), one line per operation (+ a Reset line per execution)
 //   --schedules FILE --passes P    replay every operation sequence of FILE (from the TLC state graph:
 //                                  {"t":register,"a":Create|MoveToF<target 1..3>|Call|Cleanup}) P times; every Create
-//                                  takes the next callable type of the 11 sizes x 9 alignments rotation
+//                                  takes the next callable type of the rotation: 11 sizes x 9 alignments
+//                                  (Callable<S, A>, bytes[S]) + 1 member-less callable (std::is_empty, observable
+//                                  destructor, booked through statics: EmptyCallable)
 //   --random N --maxops M          N random legal operation sequences of up to M operations
 //   --reentrant                    directed executions: every callable type (+ two of malloc class 1024) x both
 //                                  re-entrant destructor modes x five consume paths (run, cleanupNotRun, moved then
@@ -38,6 +40,7 @@
 #include <cstdint>
 #include <cstring>
 #include <new>
+#include <type_traits>
 
 #include "../ctl/ctl.h"
 #include "../ctl/drv_common.h"
@@ -162,14 +165,14 @@ struct alignas(A) Nested {
 };
 
 // called from inside Callable<S, A>::operator() / ~Callable<S, A>() (self = that callable, still alive)
-template <size_t S, size_t A>
-static void reenter(int id, const void* self) {
+template <class N, size_t S>
+static void reenterWith(int id, const void* self) {
   Stat& s = g_stat[id];
   int savedOwner = g_nestOwner;
   g_nestOwner = id;
   g_nestAddr = 0;
   {
-    OnceFunction n{Nested<S, A>()}; // takes a block of the same class from this thread's cache / the heap
+    OnceFunction n{N()}; // takes a block of the same class from this thread's cache / the heap
     uintptr_t lo = g_nestAddr, me = reinterpret_cast<uintptr_t>(self);
     if (lo == 0 || (lo < me + S && me < lo + S))
       ++s.nover; // constructed on top of a callable that is still alive
@@ -179,6 +182,10 @@ static void reenter(int id, const void* self) {
       n.cleanupNotRun();
   }
   g_nestOwner = savedOwner;
+}
+template <size_t S, size_t A>
+static void reenter(int id, const void* self) {
+  reenterWith<Nested<S, A>, S>(id, self);
 }
 
 static inline unsigned char pat(int id, size_t i) {
@@ -266,17 +273,182 @@ struct alignas(A) Callable {
   }
 };
 
+// ------------------------------------------------------------------- callable WITHOUT data members
+// std::is_empty callable types (sizeof 1, alignof 1 - the lower end of the property's size range) whose
+// constructions, moves, invocations and destructions are nevertheless OBSERVABLE: a guard / tracer object that
+// books through statics (an outstanding-work counter, a scope tracer).  "No data members" does not mean "nothing
+// to tear down": C39's "destroyed exactly once after the call / by cleanupNotRun" holds for them like for every
+// other callable, and an implementation that treats "stateless" callables specially (skips the destructor call,
+// never constructs them, constructs them twice) is only seen with such a type - every Callable<S, A> has bytes[S].
+// Nothing can be stored inside the object, so identity is kept outside of it: per tag type the id of the value
+// that is currently carried, the address of the lvalue prototype and the addresses of the moved-from husks (an
+// empty object still has an address of its own; OnceFunction relocates the VALUE bitwise, which is why the value
+// is "whatever is neither the prototype nor a husk").  Three tag types, since up to three registers are armed at
+// the same time: Create takes a tag that no armed register holds.
+struct AddrSet {
+  uintptr_t a[8];
+  int n = 0;
+  bool has(const void* p) const {
+    for (int i = 0; i < n; ++i)
+      if (a[i] == reinterpret_cast<uintptr_t>(p))
+        return true;
+    return false;
+  }
+  void add(const void* p) {
+    if (n < 8)
+      a[n++] = reinterpret_cast<uintptr_t>(p);
+  }
+  bool del(const void* p) {
+    for (int i = 0; i < n; ++i)
+      if (a[i] == reinterpret_cast<uintptr_t>(p)) {
+        a[i] = a[--n];
+        return true;
+      }
+    return false;
+  }
+};
+struct EState {
+  int id = 0;        // the callable id the value of this tag type carries (stays after its destruction: a second
+                     // destruction is booked on the same id)
+  bool armed = false; // driver knowledge: a register owns it
+  const void* proto = nullptr;
+  int protoId = 0;
+  AddrSet husks;
+};
+static constexpr int kETags = 3;
+static EState g_e[kETags];
+
+// nested callable of a re-entrant empty payload: empty as well (same sizeof/alignof, same storage decision)
+static AddrSet g_nestHusks;
+struct NestedEmpty {
+  NestedEmpty() {
+    ++g_stat[g_nestOwner].nlive;
+  }
+  NestedEmpty(NestedEmpty&& o) noexcept {
+    if (g_nestHusks.has(&o)) {
+      g_nestHusks.add(this);
+      return;
+    }
+    g_nestHusks.add(&o);
+    g_nestAddr = reinterpret_cast<uintptr_t>(this);
+  }
+  NestedEmpty(const NestedEmpty&) = delete;
+  NestedEmpty& operator=(const NestedEmpty&) = delete;
+  ~NestedEmpty() {
+    if (g_nestHusks.del(this))
+      return;
+    Stat& s = g_stat[g_nestOwner];
+    --s.nlive;
+    ++s.ndtor;
+  }
+  void operator()() {
+    ++g_stat[g_nestOwner].ninv;
+  }
+};
+
+template <int T>
+struct EmptyCallable {
+  explicit EmptyCallable(int id, bool proto = false) {
+    EState& e = g_e[T];
+    if (proto) {
+      e.proto = this;
+      e.protoId = id;
+    } else {
+      e.id = id;
+      born(id);
+    }
+  }
+  EmptyCallable(const EmptyCallable& o) {
+    EState& e = g_e[T];
+    int id = idOf(&o);
+    if (&o == e.proto)
+      e.id = id;
+    if (id)
+      born(id);
+    else {
+      ++g_husks;
+      e.husks.add(this);
+    }
+  }
+  EmptyCallable(EmptyCallable&& o) noexcept {
+    EState& e = g_e[T];
+    int id = idOf(&o);
+    bool proto = &o == e.proto;
+    if (proto)
+      e.id = id;
+    if (id)
+      born(id);
+    else {
+      ++g_husks;
+      e.husks.add(this);
+    }
+    if (!proto && id) { // the source becomes a husk
+      e.husks.add(&o);
+      --g_stat[id].live;
+      ++g_husks;
+    }
+  }
+  EmptyCallable& operator=(const EmptyCallable&) = delete;
+  ~EmptyCallable() {
+    EState& e = g_e[T];
+    if (this == e.proto) {
+      e.proto = nullptr;
+      return;
+    }
+    if (e.husks.del(this)) {
+      --g_husks;
+      return;
+    }
+    int id = e.id;
+    if (id == 0) { // something that was never constructed is destroyed
+      --g_husks;
+      return;
+    }
+    --g_stat[id].live;
+    ++g_stat[id].dtor;
+    g_stat[id].dtorAddr = reinterpret_cast<uintptr_t>(this);
+    if (g_stat[id].reent)
+      reenterWith<NestedEmpty, 1>(id, this);
+    sampleOwned(g_stat[id].dout, g_stat[id].dlout);
+  }
+  void operator()() {
+    int id = g_e[T].id;
+    ++g_stat[id].invoked;
+    g_stat[id].callAddr = reinterpret_cast<uintptr_t>(this);
+    if (g_stat[id].reent)
+      reenterWith<NestedEmpty, 1>(id, this);
+    sampleOwned(g_stat[id].iout, g_stat[id].ilout);
+  }
+
+ private:
+  static int idOf(const void* p) {
+    const EState& e = g_e[T];
+    if (p == e.proto)
+      return e.protoId;
+    if (e.husks.has(p))
+      return 0;
+    return e.id;
+  }
+  void born(int id) {
+    ++g_stat[id].live;
+    g_stat[id].lastCtor = reinterpret_cast<uintptr_t>(this);
+  }
+};
+static_assert(std::is_empty<EmptyCallable<0>>::value && sizeof(EmptyCallable<0>) == 1 &&
+                  alignof(EmptyCallable<0>) == 1 && !std::is_trivially_destructible<EmptyCallable<0>>::value,
+              "the member-less callable must be an empty class with an observable destructor");
+
 // ------------------------------------------------------------------------------------- type table
 struct TypeInfo {
   size_t size, align; // sizeof / alignof of the callable type
   // constructs into *r; variant 1 constructs a second OnceFunction in *scratch first and move-assigns it.
   // Returns the object the callable was constructed into.
   OnceFunction* (*create)(OnceFunction* r, OnceFunction* scratch, int id, int variant);
+  bool empty = false; // std::is_empty callable (no data members)
 };
 
-template <size_t S, size_t A>
-static OnceFunction* createFn(OnceFunction* r, OnceFunction* scratch, int id, int variant) {
-  using C = Callable<S, A>;
+template <class C>
+static OnceFunction* createWith(OnceFunction* r, OnceFunction* scratch, int id, int variant) {
   switch (variant % 3) {
     case 0: // construct in place from a temporary
       new (r) OnceFunction(C(id));
@@ -293,11 +465,32 @@ static OnceFunction* createFn(OnceFunction* r, OnceFunction* scratch, int id, in
   }
 }
 
+template <size_t S, size_t A>
+static OnceFunction* createFn(OnceFunction* r, OnceFunction* scratch, int id, int variant) {
+  return createWith<Callable<S, A>>(r, scratch, id, variant);
+}
+// the member-less callable: the tag type no armed register holds
+static OnceFunction* createEmpty(OnceFunction* r, OnceFunction* scratch, int id, int variant) {
+  int t = 0;
+  while (t < kETags - 1 && g_e[t].armed)
+    ++t;
+  g_e[t] = EState();
+  g_e[t].armed = true;
+  switch (t) {
+    case 0:
+      return createWith<EmptyCallable<0>>(r, scratch, id, variant);
+    case 1:
+      return createWith<EmptyCallable<1>>(r, scratch, id, variant);
+    default:
+      return createWith<EmptyCallable<2>>(r, scratch, id, variant);
+  }
+}
+
 static std::vector<TypeInfo> g_types;
 template <size_t S, size_t A>
 static void addType() {
   using C = Callable<S, A>;
-  g_types.push_back({sizeof(C), alignof(C), &createFn<S, A>});
+  g_types.push_back({sizeof(C), alignof(C), &createFn<S, A>, false});
 }
 template <size_t S>
 static void addSize() {
@@ -311,7 +504,7 @@ static void addSize() {
   addType<S, 128>();
   addType<S, 256>();
 }
-// beyond the 11 x 9 rotation (directed re-entrant executions only): callables of the next heap size class
+// beyond the 11 x 9 + 1 rotation (directed re-entrant executions only): callables of the next heap size class
 static size_t g_rotTypes = 0;
 static void buildTypes() {
   addSize<1>();
@@ -325,6 +518,8 @@ static void buildTypes() {
   addSize<200>();
   addSize<256>();
   addSize<300>();
+  // + the member-less callable (sizeof 1, alignof 1 like Callable<1, 1>, but std::is_empty)
+  g_types.push_back({sizeof(EmptyCallable<0>), alignof(EmptyCallable<0>), &createEmpty, true});
   g_rotTypes = g_types.size();
   addType<600, 8>();
   addType<1000, 64>();
@@ -379,6 +574,9 @@ struct Exec {
     for (int i = 0; i < 256; ++i)
       g_stat[i] = Stat();
     g_husks = 0;
+    for (auto& e : g_e)
+      e = EState();
+    g_nestHusks = AddrSet();
     g_nids = 0;
     g_heapN = 0;
     g_strayFrees = 0;
@@ -448,6 +646,7 @@ struct Exec {
     j.kv("align", (long long)ti.align);
     j.kv("var", variant);
     j.kv("re", reent);
+    j.kv("empty", ti.empty ? 1 : 0);
     j.kv("kind", std::string(inObj(origin, a) ? "inline" : "spill"));
     j.kv("amod", (long long)(a % ti.align));
     j.kv("m512", (long long)(a % 512));
@@ -499,11 +698,15 @@ struct Exec {
         R(f)->cleanupNotRun();
     }
     regId[f] = 0;
+    for (auto& e : g_e)
+      if (e.armed && e.id == id)
+        e.armed = false;
     const Stat& s = g_stat[id];
     Json j;
     j.beginObj();
     j.kv("e", std::string(run ? "Call" : "Cleanup"));
     j.kv("t", regName(f));
+    j.kv("id", id);
     j.kv("amod", (long long)((run ? s.callAddr : s.dtorAddr) % al));
     j.kv("dmod", (long long)(s.dtorAddr % al));
     j.kv("intact", s.intact);
